@@ -28,6 +28,7 @@ import (
 	"time"
 
 	"github.com/youzan/ZanRedisDB/pkg/fileutil"
+	"github.com/youzan/ZanRedisDB/raft"
 )
 
 type verifState struct {
@@ -36,13 +37,20 @@ type verifState struct {
 	hits map[string]int
 
 	crashName  string
-	crashAt    int // absolute hit count of crashName at which to die; 0 = not armed
+	crashAt    int           // absolute hit count of crashName at which to die; 0 = not armed
 	crashDelay time.Duration // the dying goroutine first blocks this long (the others go on), then the process is killed
 
 	holdName  string
 	holdAt    int // absolute hit count of holdName at which to block; 0 = not armed
 	holdRel   string
 	holdRelAt int // absolute hit count of holdRel that releases the hold
+
+	// the Ready the raft goroutine is working on (verifReady)
+	rdNewLeader bool
+	rdTVChanged bool
+	rdMsgs      int
+	lastTerm    uint64
+	lastVote    uint64
 
 	out *os.File
 }
@@ -99,12 +107,34 @@ func (s *verifState) report(format string, args ...interface{}) {
 	fmt.Fprintf(s.out, format+"\n", args...)
 }
 
+// verifReady is called by processReady (raft goroutine) once per Ready: it remembers whether
+// this is the Ready in which the replica became leader (the only one whose messages may be
+// sent before the hard state is in the WAL) and whether the Ready changes term or vote.
+func verifReady(isNewLeader bool, rd *raft.Ready) {
+	s := verifS
+	s.mu.Lock()
+	s.rdNewLeader = isNewLeader
+	s.rdTVChanged = false
+	s.rdMsgs = len(rd.Messages)
+	if !raft.IsEmptyHardState(rd.HardState) {
+		if rd.HardState.Term != s.lastTerm || rd.HardState.Vote != s.lastVote {
+			s.rdTVChanged = true
+		}
+		s.lastTerm, s.lastVote = rd.HardState.Term, rd.HardState.Vote
+	}
+	s.mu.Unlock()
+}
+
 func verifPoint(name string) {
 	s := verifS
 	s.mu.Lock()
 	s.hits[name]++
 	n := s.hits[name]
 	s.cond.Broadcast()
+	if name == "ready.sent.early" && s.rdMsgs > 0 {
+		// messages of the current Ready left before persistRaftState: reported with the kind of Ready
+		s.report("SENT early newleader=%v tvchanged=%v term=%d vote=%d", s.rdNewLeader, s.rdTVChanged, s.lastTerm, s.lastVote)
+	}
 	if s.crashAt > 0 && name == s.crashName && n == s.crashAt {
 		if d := s.crashDelay; d > 0 {
 			// this goroutine stops here; concurrent goroutines (e.g. the checkpoint purge that
